@@ -433,7 +433,12 @@ def run(shard, rec, rng):
                 data = rand_bytes(rng, bnd)
                 if has_delimiter(data, bnd):
                     data = b"x"
-                parts.append(("file", name, rand_text(rng, 0, 8), rng.choice(("text/plain", "application/octet-stream", "image/png", "text/plain; charset=utf-8")), data))
+                fname = rand_text(rng, 0, 8)
+                if rng.random() < 0.06:
+                    # names that look like Python's pseudo file names, which only *unnamed* streams are given
+                    fname = "<" + fname.strip("<>") + ">" if rng.random() < 0.6 else rng.choice(("<stdin>", "<fdopen>", "<>", "<a", "b>"))
+                    rec.observe("pseudo_file_name_like_filenames")
+                parts.append(("file", name, fname, rng.choice(("text/plain", "application/octet-stream", "image/png", "text/plain; charset=utf-8")), data))
             else:
                 v = rand_value(rng)
                 if has_delimiter(v.encode("utf-8"), bnd):
